@@ -58,10 +58,10 @@ static void sb_add(struct sbuf *b, const char *fmt, ...)
 	memcpy(b->s + b->n, tmp, (size_t)k + 1); b->n += (size_t)k;
 }
 
-static uint64_t filehash(const char *p, long long *len)
+static uint64_t filehash_at(int dfd, const char *p, long long *len)
 {
 	uint64_t h = 14695981039346656037ULL; *len = 0;
-	int fd = open(p, O_RDONLY | O_NOFOLLOW | O_NONBLOCK);
+	int fd = openat(dfd, p, O_RDONLY | O_NOFOLLOW | O_NONBLOCK);
 	if (fd < 0) return 0;
 	unsigned char buf[4096]; ssize_t k;
 	while ((k = read(fd, buf, sizeof buf)) > 0) { for (ssize_t i = 0; i < k; i++) { h ^= buf[i]; h *= 1099511628211ULL; } *len += k; }
@@ -76,23 +76,33 @@ static void hexs(struct sbuf *b, const char *s)
 	for (; *s; s++) sb_add(b, "%02x", (unsigned char)*s);
 }
 
+/* a path in a snapshot: hex, or "#<length>.<fnv>" when it is longer than 200 bytes */
+static void hexpath(struct sbuf *b, const char *s)
+{
+	size_t n = strlen(s);
+	if (n > 200) sb_add(b, "#%zu.%016llx", n, (unsigned long long)vh_fnv(s, n));
+	else hexs(b, s);
+}
+
 static void mt(struct sbuf *b, const struct stat *st)
 {
 	if (st->st_mtime < 1500000000) sb_add(b, "%ld", (long)st->st_mtime); else sb_add(b, "now");
 }
 
-/* one object; canary = 1 adds ctime/mtime ns so that any touch shows */
-static void descr(struct sbuf *b, const char *full, const char *rel, int canary)
+/* one object, named relative to the directory descriptor dfd (paths below the
+ * target can be much longer than PATH_MAX); canary = 1 adds ctime/mtime ns so
+ * that any touch shows */
+static void descr_at(struct sbuf *b, int dfd, const char *name, const char *rel, int canary)
 {
 	struct stat st;
-	if (lstat(full, &st) != 0) { sb_add(b, " "); hexs(b, rel); sb_add(b, ":?"); return; }
-	sb_add(b, " "); hexs(b, rel); sb_add(b, ":");
+	if (fstatat(dfd, name, &st, AT_SYMLINK_NOFOLLOW) != 0) { sb_add(b, " "); hexpath(b, rel); sb_add(b, ":?"); return; }
+	sb_add(b, " "); hexpath(b, rel); sb_add(b, ":");
 	if (S_ISDIR(st.st_mode)) { sb_add(b, "d:%o:", (unsigned)(st.st_mode & 07777)); mt(b, &st); }
 	else if (S_ISREG(st.st_mode)) {
-		long long len; uint64_t h = filehash(full, &len);
+		long long len; uint64_t h = filehash_at(dfd, name, &len);
 		sb_add(b, "f:%o:%u:%lld:%016llx:", (unsigned)(st.st_mode & 07777), (unsigned)st.st_nlink, len, (unsigned long long)h); mt(b, &st);
 	} else if (S_ISLNK(st.st_mode)) {
-		char t[4096]; ssize_t k = readlink(full, t, sizeof t - 1); if (k < 0) k = 0; t[k] = 0;
+		char t[4096]; ssize_t k = readlinkat(dfd, name, t, sizeof t - 1); if (k < 0) k = 0; t[k] = 0;
 		sb_add(b, "l:");
 		if (strncmp(t, rootd, strlen(rootd)) == 0) { char u[4200]; snprintf(u, sizeof u, "/R%s", t + strlen(rootd)); hexs(b, u); }
 		else hexs(b, t);
@@ -103,9 +113,16 @@ static void descr(struct sbuf *b, const char *full, const char *rel, int canary)
 		    (long long)st.st_mtim.tv_sec, st.st_mtim.tv_nsec);
 }
 
-static void walk(struct sbuf *b, const char *full, const char *rel, int canary, int depth)
+static void descr(struct sbuf *b, const char *full, const char *rel, int canary)
 {
-	DIR *d = opendir(full); if (!d) return;
+	descr_at(b, AT_FDCWD, full, rel, canary);
+}
+
+/* dfd: an open directory (consumed) */
+static void walk_at(struct sbuf *b, int dfd, const char *rel, int canary, int depth)
+{
+	int d2 = dup(dfd); DIR *d = d2 >= 0 ? fdopendir(d2) : NULL;
+	if (!d) { if (d2 >= 0) close(d2); close(dfd); return; }
 	char *names[512]; int n = 0; struct dirent *de;
 	while ((de = readdir(d)) && n < 512) {
 		if (!strcmp(de->d_name, ".") || !strcmp(de->d_name, "..")) continue;
@@ -115,14 +132,24 @@ static void walk(struct sbuf *b, const char *full, const char *rel, int canary, 
 	closedir(d);
 	qsort(names, (size_t)n, sizeof names[0], cmpstr);
 	for (int i = 0; i < n; i++) {
-		char f2[8192], r2[8192];
-		snprintf(f2, sizeof f2, "%s/%s", full, names[i]);
-		snprintf(r2, sizeof r2, "%s%s%s", rel, *rel ? "/" : "", names[i]);
-		descr(b, f2, r2, canary);
+		size_t l = strlen(rel) + strlen(names[i]) + 2;
+		char *r2 = malloc(l);
+		snprintf(r2, l, "%s%s%s", rel, *rel ? "/" : "", names[i]);
+		descr_at(b, dfd, names[i], r2, canary);
 		struct stat st;
-		if (lstat(f2, &st) == 0 && S_ISDIR(st.st_mode) && depth < 12) walk(b, f2, r2, canary, depth + 1);
-		free(names[i]);
+		if (fstatat(dfd, names[i], &st, AT_SYMLINK_NOFOLLOW) == 0 && S_ISDIR(st.st_mode) && depth < 400) {
+			int fd = openat(dfd, names[i], O_RDONLY | O_DIRECTORY | O_NOFOLLOW);
+			if (fd >= 0) walk_at(b, fd, r2, canary, depth + 1);
+		}
+		free(r2); free(names[i]);
 	}
+	close(dfd);
+}
+
+static void walk(struct sbuf *b, const char *full, const char *rel, int canary, int depth)
+{
+	int fd = open(full, O_RDONLY | O_DIRECTORY | O_NOFOLLOW);
+	if (fd >= 0) walk_at(b, fd, rel, canary, depth);
 }
 
 static char *canary_digest(void)
@@ -133,9 +160,14 @@ static char *canary_digest(void)
 	return b.s;
 }
 
+static dev_t cwd_dev; static ino_t cwd_ino;
+
+/* The working directory is identified by device/inode of "." (getcwd() fails
+ * once the process sits deeper than PATH_MAX, which is one of the things looked for). */
 static const char *envcheck(void)
 {
-	char c[800];
+	char c[800]; struct stat st;
+	if (stat(".", &st) != 0 || st.st_dev != cwd_dev || st.st_ino != cwd_ino) return "cwd";
 	if (!getcwd(c, sizeof c) || strcmp(c, cwd0) != 0) return "cwd";
 	mode_t m = umask(0); umask(m);
 	if (m != umask0) return "umask";
@@ -143,17 +175,27 @@ static const char *envcheck(void)
 }
 
 /* ---- case life cycle ---- */
-static void rmrf(const char *p)
+static void rmrf_at(int dfd, const char *name)
 {
-	struct stat st; if (lstat(p, &st) != 0) return;
+	struct stat st; if (fstatat(dfd, name, &st, AT_SYMLINK_NOFOLLOW) != 0) return;
 	if (S_ISDIR(st.st_mode)) {
-		chmod(p, 0700);
-		DIR *d = opendir(p); struct dirent *de;
-		if (d) { while ((de = readdir(d))) { if (!strcmp(de->d_name, ".") || !strcmp(de->d_name, "..")) continue;
-			char f[8192]; snprintf(f, sizeof f, "%s/%s", p, de->d_name); rmrf(f); } closedir(d); }
-		rmdir(p);
-	} else unlink(p);
+		fchmodat(dfd, name, 0700, 0);
+		int fd = openat(dfd, name, O_RDONLY | O_DIRECTORY | O_NOFOLLOW);
+		if (fd >= 0) {
+			int d2 = dup(fd); DIR *d = d2 >= 0 ? fdopendir(d2) : NULL; struct dirent *de;
+			if (d) {
+				char *names[512]; int n = 0;
+				while ((de = readdir(d)) && n < 512) { if (!strcmp(de->d_name, ".") || !strcmp(de->d_name, "..")) continue; names[n++] = strdup(de->d_name); }
+				closedir(d);
+				for (int i = 0; i < n; i++) { rmrf_at(fd, names[i]); free(names[i]); }
+			}
+			close(fd);
+		}
+		unlinkat(dfd, name, AT_REMOVEDIR);
+	} else unlinkat(dfd, name, 0);
 }
+
+static void rmrf(const char *p) { rmrf_at(AT_FDCWD, p); }
 
 static void tree_begin(const char *tag)
 {
@@ -175,6 +217,7 @@ static void tree_begin(const char *tag)
 #undef P
 	if (chdir(targetd) != 0) die("chdir");
 	if (!getcwd(cwd0, sizeof cwd0)) die("getcwd");
+	{ struct stat st; if (stat(".", &st) != 0) die("stat ."); cwd_dev = st.st_dev; cwd_ino = st.st_ino; }
 	umask0 = 022; canary0 = NULL;
 }
 
